@@ -158,8 +158,8 @@ def _inline_helper(call, info):
         params = params[1:]
     if len(call.args) != len(params) or call.keywords:
         return None
-    import copy
-    return _Subst(dict(zip(params, call.args))).visit(copy.deepcopy(body[0].value))
+    from .sites import _clone
+    return _Subst({k: _clone(v) for k, v in zip(params, call.args)}).visit(_clone(body[0].value))
 
 
 _CONST_PROPS = {}
